@@ -37,6 +37,10 @@ fn utf8count_subjects() -> Vec<(&'static str, CountFn)> {
 /// frame at the offset
 fn utf8_plans(cx: &Cx) -> Vec<(usize, usize, usize)> {
     let mut v = vec![(0, 0, 0), (1, 0, 1), (2, 0, 2), (3, 0, 3), (4, 0, 4)];
+    if cx.lite {
+        v.push((70, 62, 3));
+        return v;
+    }
     let offs: Vec<usize> = if cx.thorough { vec![0, 13, 14, 15, 29, 30, 31, 32, 45, 61, 62, 63, 64, 66, 67] } else { vec![30, 62, 67] };
     for o in offs {
         v.push((70, o, 3));
@@ -80,7 +84,6 @@ fn random_text(rng: &mut Rng, max: usize) -> Vec<u8> {
 }
 
 fn fam_utf8(cx: &mut Cx) {
-    let plans = utf8_plans(cx);
     let frame_of = |n: usize| -> Vec<u8> { (0..n).map(|i| b'a' + (i % 26) as u8).collect() };
     let mut rng0 = cx.rng.derive("utf8-inputs");
     let nsingles = if cx.thorough { 1500 } else { 200 };
@@ -108,6 +111,7 @@ fn fam_utf8(cx: &mut Cx) {
         if !cx.subject(name, "utf8", "") {
             continue;
         }
+        let plans = utf8_plans(cx);
         for &(fl, off, k) in plans.iter() {
             let frame = frame_of(fl);
             let cnt = UTF8_ALPHA.len().pow(k as u32);
@@ -137,6 +141,7 @@ fn fam_utf8(cx: &mut Cx) {
         if !cx.subject(name, "utf8_count", "") {
             continue;
         }
+        let plans = utf8_plans(cx);
         for &(fl, off, k) in plans.iter() {
             let frame = frame_of(fl);
             let cnt = UTF8_ALPHA.len().pow(k as u32);
@@ -173,6 +178,7 @@ fn fam_utf8(cx: &mut Cx) {
         if !cx.subject(name, "utf8_decode", "") {
             continue;
         }
+        let plans = utf8_plans(cx);
         for &(fl, off, k) in plans.iter() {
             if k == 4 && fl == 4 && !cx.thorough && name.starts_with("std") {
                 continue;
